@@ -52,7 +52,7 @@ class C06(OptEngineBase):
     PROBES = [
         "fixed_isolated", "all_fixed", "none_fixed", "fixed_landmark", "unfix_between_calls",
         "first_vertex_not_min_id", "nan_outcome", "diverged_outcome", "singular_natural", "solver_raise_fired",
-        "i3_checked", "i3_skipped_illcond", "stdout_fail_fired", "multi_component",
+        "i3_checked", "i3_skipped_illcond", "stdout_fail_fired", "multi_component", "singular_raised_as_error",
     ]
 
     # ------------------------------------------------------------------ generate
@@ -177,6 +177,9 @@ class C06(OptEngineBase):
                     after = poses_snapshot(g)
                     fired = w.plan.fired[fired_before:]
                     fired_kinds = {f["kind"] for f in fired}
+                    if "nan_fill" in fired_kinds and (case.get("config") or {}).get("warnings", {}).get("kind") == "error":
+                        # under -W error the singular-factor warning of the (simulated) solver is itself the exception
+                        fired_kinds = fired_kinds | {"raise_rankwarning"}
                     result_changing = bool(fired_kinds & (RAISING | {"nan_fill"}))
                     # outcome class
                     if raised is not None:
@@ -214,6 +217,8 @@ class C06(OptEngineBase):
                         res.probe("fixed_isolated")
                     if any(v.id in model and sv.get("role") == "landmark" for v, sv in zip(verts, case["workload"]["vertices"])):
                         res.probe("fixed_landmark")
+                    if raised is not None and type(raised).__name__ == "MatrixRankWarning" and not (fired_kinds & RAISING):
+                        res.probe("singular_raised_as_error")
                     # unexpected exception
                     if raised is not None and not (fired_kinds & RAISING):
                         wellposed = ref is not None and ref.get("ok")
